@@ -2,6 +2,7 @@ package main
 
 import (
 	"fmt"
+	"go/ast"
 	"go/constant"
 	"go/token"
 	"go/types"
@@ -314,6 +315,19 @@ func (x *Exec) jump(st *State, to *ssa.BasicBlock) {
 func (x *Exec) step(st *State, instr ssa.Instruction) {
 	switch in := instr.(type) {
 	case *ssa.DebugRef:
+		if len(st.frames) == 1 {
+			if id, ok := in.Expr.(*ast.Ident); ok {
+				fr := st.top()
+				if fr.names == nil {
+					fr.names = map[string]namedRef{}
+				}
+				if v, have := fr.locals[in.X]; have {
+					fr.names[id.Name] = namedRef{v, in.IsAddr}
+				} else if _, isConst := in.X.(*ssa.Const); isConst {
+					fr.names[id.Name] = namedRef{x.eval(st, in.X), false}
+				}
+			}
+		}
 	case *ssa.Alloc:
 		elem := ptrElem(in.Type())
 		p := st.allocObj(elem, sanitize(in.Comment))
@@ -400,7 +414,9 @@ func (x *Exec) step(st *State, instr ssa.Instruction) {
 	case *ssa.Store:
 		p := x.eval(st, in.Addr)
 		v := x.eval(st, in.Val)
-		st.requireNonNil(p.T(), "Store")
+		if p.Idx == nil {
+			st.requireNonNil(p.T(), "Store")
+		}
 		x.guardCheck(st, p, true)
 		if v.Fn != nil || v.Dyn != nil || v.Iter != nil {
 			// keep static knowledge for address-taken locals: remember by location key
@@ -651,7 +667,9 @@ func (x *Exec) unop(st *State, in *ssa.UnOp) {
 	v := x.eval(st, in.X)
 	switch in.Op {
 	case token.MUL:
-		st.requireNonNil(v.T(), "Load")
+		if v.Idx == nil {
+			st.requireNonNil(v.T(), "Load")
+		}
 		x.guardCheck(st, v, false)
 		out := st.load(v)
 		out.Typ = in.Type()
